@@ -258,9 +258,9 @@ func evalCat(c catCase) lib.Outcome {
 	if hasLong {
 		var re *regexp.Regexp
 		if c.SSH {
-			re = regexp.MustCompile(`(?m)^SERVER\|` + regexp.QuoteMeta(label) + `\|WARN\|[0-9]{4}-[0-9]{6}\|` + regexp.QuoteMeta(file) + `\|Long log line, splitting into multiple lines\n`)
+			re = regexp.MustCompile(`SERVER\|` + regexp.QuoteMeta(label) + `\|WARN\|[0-9]{4}-[0-9]{6}\|` + regexp.QuoteMeta(file) + `\|Long log line, splitting into multiple lines\n`)
 		} else {
-			re = regexp.MustCompile(`(?m)^CLIENT\|[^|\n]*\|WARN\|` + regexp.QuoteMeta(file) + `\|Long log line, splitting into multiple lines\n`)
+			re = regexp.MustCompile(`CLIENT\|[^|\n]*\|WARN\|` + regexp.QuoteMeta(file) + `\|Long log line, splitting into multiple lines\n`)
 		}
 		stripped = re.ReplaceAll(got, nil)
 		if !bytes.Equal(stripped, got) && bytes.Equal(stripped, expected) {
